@@ -200,6 +200,14 @@ def run_case(seed, tier, rec, st):
             d2 = dict(d0)
             d2["None"] = 5
             faults.append(("stranger-None", d2, None))
+            # unexpected keys that are not strings (YAML / msgpack documents have them): reported as they are
+            for k in (7, True, None, 1.5, ("t", 1)):
+                d2 = dict(d0)
+                d2[k] = 1
+                faults.append(("stranger-nonstring", d2, None))
+            d2 = dict(d0)
+            d2[1], d2["1"] = "a", "b"
+            faults.append(("stranger-nonstring", d2, None))
             for jv in rng.sample(pool, 6):
                 faults.append(("whole-arg", jv, jv))
             for label, d, injected in faults:
@@ -392,7 +400,10 @@ def classify(ref, mexc, S, sname, exp, got):
             "observed": common.short(got[1], 400), "reference": str(exp[1])[:300]}
     ex = got[1]
     ename = type(ex).__name__
-    err = f"{ename}: {ex}"[:300]
+    try:
+        err = f"{ename}: {ex}"[:300]
+    except Exception as e2:
+        err = f"{ename}: <str() failed: {type(e2).__name__}: {e2}>"[:300]
     if exp[0] == "ok":
         return None, f"raised-for-valid-input:{ename}", {"error": err, "expected": common.short(exp[1], 300)}
     e = exp[1]
@@ -407,6 +418,10 @@ def classify(ref, mexc, S, sname, exp, got):
                                                         "observed_field": getattr(ex, "field_name", None)}
     if isinstance(e, RefExtra) and e.cls == sname:
         if type(ex) is mexc.ExtraKeysError and set(ex.extra_keys) == e.keys and ex.target_type is S:
+            try:
+                str(ex)
+            except Exception as e2:
+                return None, f"message-of-ExtraKeysError-cannot-be-rendered:{type(e2).__name__}", {"error": f"{type(e2).__name__}: {e2}"[:200], "keys": sorted(map(repr, e.keys))}
             return "agree_extra", None, {}
         return None, f"expected-ExtraKeysError:{ename}", {"error": err, "expected_keys": sorted(map(str, e.keys)),
                                                           "observed_keys": sorted(map(str, getattr(ex, "extra_keys", []) or []))}
